@@ -254,8 +254,9 @@ void MEDDLY::inter_mt::_compute(int L, unsigned in,
         }
     }
 
-    if ((A == B) && (arg1F==arg2F)) {
+    if ((A == B) && ((arg1F==arg2F) || arg1F->isTerminalNode(A))) {
         // A and A = A
+        // (equal terminals denote the same constant in any forest)
         edge_value dummy;
         dummy.set();
         MEDDLY_DCASSERT(copy_arg1res);
